@@ -306,19 +306,31 @@ func ruleC02Top(p *Program, r *Run, fd *ast.FuncDecl, c *attachClient) {
 			var sortLit, takeLit *ast.CompositeLit
 			ast.Inspect(cc, func(n ast.Node) bool {
 				as, ok := n.(*ast.AssignStmt)
-				if !ok || len(as.Lhs) != 1 || len(as.Rhs) != 1 {
-					return true
-				}
-				sel, ok := as.Lhs[0].(*ast.SelectorExpr)
 				if !ok {
 					return true
 				}
-				lit := litOf(as.Rhs[0])
-				switch selField(info, sel) {
-				case c.sortF:
-					sortBase, sortLit = sel.X, lit
-				case c.takeF:
-					takeBase, takeLit = sel.X, lit
+				// x.sort = &SortOperator{...}, or x.sort, x.take = desugar(op) with a helper that only builds the two
+				rhs := as.Rhs
+				if len(as.Rhs) == 1 && len(as.Lhs) > 1 {
+					if call, isCall := ast.Unparen(as.Rhs[0]).(*ast.CallExpr); isCall {
+						rhs = p.ExpandResults(call)
+					}
+				}
+				if len(rhs) != len(as.Lhs) {
+					return true
+				}
+				for i, l := range as.Lhs {
+					sel, ok := ast.Unparen(l).(*ast.SelectorExpr)
+					if !ok {
+						continue
+					}
+					lit := litOf(p.Constructed(rhs[i]))
+					switch selField(info, sel) {
+					case c.sortF:
+						sortBase, sortLit = sel.X, lit
+					case c.takeF:
+						takeBase, takeLit = sel.X, lit
+					}
 				}
 				return true
 			})
